@@ -232,6 +232,7 @@ inline std::vector<fits::HDU> spec_to_hdus(const TableSpec& s) {
   else for (size_t d = 0; d < s.dims.size(); d++) p.cards.push_back(icard("ORDER" + std::to_string(d), s.dims[d].order));
   if (s.has_periods) for (size_t d = 0; d < s.dims.size(); d++) p.cards.push_back(rcard("PERIOD" + std::to_string(d), s.dims[d].period));
   for (auto& kv : s.aux) p.cards.push_back(scard(kv.first, kv.second));
+  p.data.reserve(4 * s.coeff.size());
   for (float c : s.coeff) put_f32(p.data, c);
   hs.push_back(p);
   for (size_t d = 0; d < s.dims.size(); d++) {
